@@ -28,7 +28,7 @@ NEEDS_THOROUGH = ["fast"]
 
 
 def EXPECTED_KNOWN(tier):
-    return ["F4a", "F4b", "F4c", "F4d", "F4e", "F16", "F21", "F38"]
+    return ["F4a", "F4b", "F4c", "F4d", "F4e", "F16", "F21", "F38", "F42"]
 
 
 def shards(tier, seed):
